@@ -3,6 +3,7 @@ import Canopy.Gen.Keys
 import Canopy.Proof.SignBytes
 import Canopy.Gen.Proto
 import Canopy.Model.ProtoCrit
+import Canopy.Proof.Merkle
 /-!
 # C19 (a) — composite store keys never collide and never fall into each other's prefix range
 
@@ -318,6 +319,48 @@ wrappers naming different keys would both be bound -/
 theorem signbytes_blind_to_claimed_key (t : TxContent) (g₁ g₂ : SigC) :
     signBytes { t with signature := some g₁ } = signBytes { t with signature := some g₂ } := by
   simp [signBytes, TxContent.unsigned]
+
+/-! ## Merkle roots (transaction root, validator root)
+
+`Merkle.root` is the reference semantics of `crypto.MerkleTree` (hash the items, pair up level by level,
+an odd last node with itself); the driver recomputes the real roots with it for every length class. -/
+
+/-- the code the model transcribes (facts regenerated from lib/crypto/hash.go): the padded linear-array
+construction, its three cases, and the next power of two by bit smearing over all of 1, 2, 4, 8, 16 -/
+theorem merkle_src :
+    Gen.Proto.src_crypto_nextPowerOfTwo = "v--; v |= v >> 1; v |= v >> 2; v |= v >> 4; v |= v >> 8; v |= v >> 16; v++; return v" ∧
+    Gen.Proto.src_crypto_MerkleTree = "if len(items) == 0 { return []byte{}, [][]byte{}, nil }; offset := nextPowerOfTwo(len(items)); size := offset * 2 - 1; store = make([][]byte, size); for i, item := range items { store[i] = Hash(item) }; for i := 0; i < size - 1; i += 2 { switch  { default: store[offset] = Hash(concat(store[i], store[i + 1])); case store[i] == nil: store[offset] = nil; case store[i + 1] == nil: store[offset] = Hash(concat(store[i], store[i])) }; offset++ }; return store[size - 1], store, nil" ∧
+    Gen.Proto.src_crypto_concat = "out := make([]byte, len(a) + len(b)); copy(out, a); copy(out[len(a):], b); return out" := by
+  decide +kernel
+
+/-- **two item lists of EQUAL length with the same Merkle root are equal**, for an injective leaf hash
+and a node hash that is injective in the pair (the collision-free idealisation of SHA-256 and of the
+unframed concatenation of two 32-byte hashes, as explicit hypotheses) -/
+theorem merkle_root_injective_same_length {α β : Type} (leaf : β → α) (node : α → α → α)
+    (hleaf : ∀ x y, leaf x = leaf y → x = y) (hnode : Merkle.NodeInj node)
+    (l₁ l₂ : List β) (hl : l₁.length = l₂.length) (h : Merkle.root leaf node l₁ = Merkle.root leaf node l₂) :
+    l₁ = l₂ := by
+  cases l₁ with
+  | nil => cases l₂ with
+    | nil => rfl
+    | cons _ _ => simp at hl
+  | cons a r =>
+    unfold Merkle.root at h
+    rw [← hl] at h
+    have hm := Merkle.rootAux_inj node hnode _ ((a :: r).map leaf) (l₂.map leaf)
+      (by simpa using hl) (by simp) (by simp) h
+    exact Merkle.map_inj leaf hleaf _ _ hm
+
+/-- the root of a non-empty list exists (is never the empty placeholder) -/
+theorem merkle_root_nonempty {α β : Type} (leaf : β → α) (node : α → α → α) (l : List β) (h : l ≠ []) :
+    (Merkle.root leaf node l).isSome = true :=
+  Merkle.rootAux_isSome node _ _ (by simp) (by simpa using h)
+
+/-- remark (true of the real code too, not a failure): lists of DIFFERENT length can share a root —
+an odd last node is paired with itself, so `[a, b, c]` and `[a, b, c, c]` collide. `BlockHeader.NumTxs`
+(inside the block hash) and the replay filter (no transaction twice) keep it from mattering. -/
+example {α β : Type} (leaf : β → α) (node : α → α → α) (a b c : β) :
+    Merkle.root leaf node [a, b, c] = Merkle.root leaf node [a, b, c, c] := rfl
 
 /-!
 # C19 (c) — decoding untrusted bytes
